@@ -288,6 +288,15 @@ func (in *sysInst) API(method, path string, body any) (status int, resp []byte, 
 	return in.APIWith(method, path, body, true)
 }
 
+// APITimeout is API with its own client time-out.
+func (in *sysInst) APITimeout(method, path string, body any, d time.Duration) (status int, resp []byte, err error) {
+	old := in.client
+	in.client = &http.Client{Timeout: d, Transport: old.Transport}
+	defer func() { in.client = old }()
+
+	return in.APIWith(method, path, body, true)
+}
+
 func (in *sysInst) APIWith(method, path string, body any, auth bool) (status int, resp []byte, err error) {
 	var rd io.Reader
 	if body != nil {
@@ -415,14 +424,18 @@ type sysListServer struct {
 	mu    sync.Mutex
 	lists map[string][]byte
 	cuts  map[string]int
+	slows map[string]sysSlow
+	pathHits map[string]int
 	// CutServed counts responses that were cut short on purpose.
 	CutServed atomic.Int64
+	// SlowServed counts trickled responses sent completely.
+	SlowServed atomic.Int64
 	Hits      atomic.Int64
 	delay atomic.Int64 // max microseconds
 }
 
 func sysStartListServer() (ls *sysListServer, err error) {
-	ls = &sysListServer{lists: map[string][]byte{}, cuts: map[string]int{}}
+	ls = &sysListServer{lists: map[string][]byte{}, cuts: map[string]int{}, slows: map[string]sysSlow{}, pathHits: map[string]int{}}
 	for attempt := 0; attempt < 8; attempt++ {
 		ls.Port = verifkit.FreePort()
 		ln, e := net.Listen("tcp4", fmt.Sprintf("127.0.0.1:%d", ls.Port))
@@ -434,6 +447,9 @@ func sysStartListServer() (ls *sysListServer, err error) {
 		mux := http.NewServeMux()
 		mux.HandleFunc("/", func(w http.ResponseWriter, r *http.Request) {
 			ls.Hits.Add(1)
+			ls.mu.Lock()
+			ls.pathHits[r.URL.Path]++
+			ls.mu.Unlock()
 			if d := ls.delay.Load(); d > 0 {
 				time.Sleep(time.Duration(rand.Int63n(d+1)) * time.Microsecond)
 			}
@@ -462,6 +478,27 @@ func sysStartListServer() (ls *sysListServer, err error) {
 				}
 			}
 			w.Header().Set("Content-Type", "text/plain")
+			ls.mu.Lock()
+			slow, isSlow := ls.slows[r.URL.Path]
+			ls.mu.Unlock()
+			if isSlow && slow.chunks > 1 {
+				// Trickle the body so that the transfer takes a while.
+				w.Header().Set("Content-Length", fmt.Sprint(len(b)))
+				fl, _ := w.(http.Flusher)
+				step := len(b)/slow.chunks + 1
+				for off := 0; off < len(b); off += step {
+					if _, werr := w.Write(b[off:min(off+step, len(b))]); werr != nil {
+						return
+					}
+					if fl != nil {
+						fl.Flush()
+					}
+					time.Sleep(slow.pause)
+				}
+				ls.SlowServed.Add(1)
+
+				return
+			}
 			_, _ = w.Write(b)
 		})
 		ls.srv = &http.Server{Handler: mux}
@@ -477,6 +514,30 @@ func (ls *sysListServer) Set(path string, content []byte) {
 	ls.mu.Lock()
 	ls.lists[path] = content
 	delete(ls.cuts, path)
+	delete(ls.slows, path)
+	ls.mu.Unlock()
+}
+
+// HitsFor returns the number of requests seen for path.
+func (ls *sysListServer) HitsFor(path string) (n int) {
+	ls.mu.Lock()
+	defer ls.mu.Unlock()
+
+	return ls.pathHits[path]
+}
+
+// sysSlow describes a trickled transfer.
+type sysSlow struct {
+	chunks int
+	pause  time.Duration
+}
+
+// SetSlow makes the server send content in chunks with a pause after each.
+func (ls *sysListServer) SetSlow(path string, content []byte, chunks int, pause time.Duration) {
+	ls.mu.Lock()
+	ls.lists[path] = content
+	delete(ls.cuts, path)
+	ls.slows[path] = sysSlow{chunks: chunks, pause: pause}
 	ls.mu.Unlock()
 }
 
